@@ -44,6 +44,7 @@ def main():
     S.stream_compare(ctx)
     S.stream_unary(ctx)
     S.stream_reductions(ctx)
+    S.stream_reduce_true(ctx)
     S.extended_oracle(ctx)
     run.finish("proof")
 
